@@ -1,18 +1,24 @@
 #!/bin/bash
 # seed_matrix.sh [tier] [name...]: run, for every seeded change under /verif/seeded
-# (or the named ones), the check of its property against /repo with the change
-# applied; undo the change.  Writes /verif/seeded/RESULTS.tsv.
+# (or the named ones), the check of its property (and the checks named in
+# meta.json "also_run") against a scratch worktree of /repo with the change
+# applied.  /repo itself is not touched; evidence goes to /tmp/seed_evidence.
 tier=${1:-quick}; shift
 cd /verif
+export GOSYM_EVIDENCE_DIR=/tmp/seed_evidence  # keep /verif/evidence for the unchanged tree
+wt=/tmp/seedrepo
+[ -d $wt ] || git -C /repo worktree add --detach $wt HEAD >/dev/null 2>&1
+git -C $wt checkout -q --detach $(git -C /repo rev-parse HEAD)
+./check C14 quick >/dev/null 2>&1   # makes sure the engine binary is current
 names="$@"; [ -z "$names" ] && names=$(ls seeded | grep -v RESULTS)
 for n in $names; do
   id=${n%%-*}
   extra=$(python3 -c "import json;print(' '.join(json.load(open('seeded/$n/meta.json')).get('also_run',[])))" 2>/dev/null)
-  if [ -n "$(git -C /repo status --porcelain)" ]; then echo "/repo not clean"; exit 2; fi
-  git -C /repo apply /verif/seeded/$n/patch.diff || { echo "$n patch-does-not-apply"; continue; }
+  git -C $wt checkout -q -- . ; git -C $wt clean -fdq
+  git -C $wt apply /verif/seeded/$n/patch.diff || { echo "$n patch-does-not-apply"; continue; }
   for c in $id $extra; do
-    t0=$(date +%s); ./check $c $tier > /tmp/seedmx_${n}_$c.log 2>&1; rc=$?
+    t0=$(date +%s); bin/gosym check -repo $wt -id $c -tier $tier > /tmp/seedmx_${n}_$c.log 2>&1; rc=$?
     echo -e "$n\t$c\t$tier\trc=$rc\t$(($(date +%s)-t0))s\t$(grep -m1 '^VIOLATION' /tmp/seedmx_${n}_$c.log | sed 's/.*replay=.*\///')"
   done
-  git -C /repo checkout -q -- .; git -C /repo clean -fdq
 done
+git -C $wt checkout -q -- . ; git -C $wt clean -fdq
